@@ -25,6 +25,24 @@
 (*                      alone, but the reader always expects a length          (WritePacket)    *)
 (*   "unboundedInflate" gzip output is copied without limit                   (decompressData)  *)
 (* Dev = {} is the contract (and the code with patches C01-1, C01-2, C05-1 applied).            *)
+(*                                                                                              *)
+(* Message transport (Chunking = "msg"): the WebSocket wrappers wsServerConn / wsClientConn      *)
+(* (websocket_conn.go).  One Read call is one critical section under readMu:                     *)
+(*   if readBuf holds unread bytes: hand over min(len(p), unread) of them              (WsBuf)   *)
+(*   else ReadMessage (NextMsg: the peer's next message, any size >= 0), copy min(len(p), m)     *)
+(*        bytes to p and keep the rest of the message in readBuf                      (WsFresh)  *)
+(* The wrapper state lives in aux: msg (message fetched by this Read, not yet copied), mpos      *)
+(* (stream bytes taken off the socket as messages), readBuf = wire[base+1 .. base+blen] with     *)
+(* read offset off (the code re-slices readBuf = readBuf[n:], which is off += n with off = 0      *)
+(* whenever a new remainder is stored), ok (ghost: every chunk handed over so far continued the  *)
+(* stream exactly where the reader was).  Named deviations of the wrapper (none is in the code   *)
+(* at HEAD; each is a one-line slip in Read that only a multi-message history on ONE connection  *)
+(* shows - see Framing_show_ws*.cfg):                                                            *)
+(*   "wsStaleOffset"    the read offset is not reset when a new remainder is stored: the second  *)
+(*                      remainder on a connection loses its first `off` bytes (or all of them)   *)
+(*   "wsDropRemainder"  the part of a message that did not fit into p is not kept                *)
+(*   "wsKeepWhole"      the whole message is kept, not only the part not yet handed over         *)
+(*   "wsEmptyIsEof"     an empty message ends the stream (io.EOF) instead of being an empty read *)
 EXTENDS Naturals, Sequences, FiniteSets, TLC, Json
 
 CONSTANTS Mode,      \* "honest" (C01) | "hostile" (C05)
@@ -44,12 +62,13 @@ CONSTANTS Mode,      \* "honest" (C01) | "hostile" (C05)
           Chunking,  \* "all": every n in 1..min(want, avail) | "max": always min(want, avail) |
                      \* "msg": a MESSAGE transport (wsServerConn / wsClientConn): the peer cuts the stream into messages
                      \* of its own choosing; a Read gets min(want, rest of the current message) and the wrapper keeps
-                     \* the rest (aux.mleft) for the following Reads - any number of times per connection
+                     \* the rest (readBuf) for the following Reads - any number of times per connection; empty messages count as stalls
           Dev,       \* see above
           Emit       \* TRUE: keep history and print behaviours ("BEH ...")
 
 ASSUME Mode \in {"honest", "hostile"} /\ Chunking \in {"all", "max", "msg"}
-ASSUME Dev \subseteq {"shortHeader", "emptyNoLen", "unboundedInflate"}
+WsDevs == {"wsStaleOffset", "wsDropRemainder", "wsKeepWhole", "wsEmptyIsEof"}
+ASSUME Dev \subseteq {"shortHeader", "emptyNoLen", "unboundedInflate"} \cup WsDevs
 
 VARIABLES sent,     \* frames handed to the writer, in order (ghost: what was written)
           wire,     \* abstract byte stream produced so far
@@ -63,7 +82,7 @@ VARIABLES sent,     \* frames handed to the writer, in order (ghost: what was wr
           outs,     \* outcomes so far: "Packet" | "Error" | "Reply" | "Eof"
           aux,      \* [thr |-> reader thread of the current ReadPacket call,
                     \*  retain |-> requests the dispatcher has registered and not yet released,
-                    \*  mleft |-> (Chunking = "msg") bytes of the current message not yet handed to the reader]
+                    \*  msg, mpos, base, blen, off, ok |-> (Chunking = "msg") the WebSocket wrapper, see above]
           hist      \* history of transport decisions (only when Emit)
 vars == <<sent, wire, open, pos, rd, decoded, alloc, stalls, devs, outs, aux, hist>>
 
@@ -148,24 +167,53 @@ Idle == [ph |-> "Type", id |-> 0, got |-> 0, need |-> 0, bad |-> FALSE, start |-
 
 Init == /\ sent = <<>> /\ wire = <<>> /\ open = TRUE /\ pos = 0 /\ rd = Idle
         /\ decoded = <<>> /\ alloc = 0 /\ stalls = 0 /\ devs = {} /\ outs = <<>> /\ hist = <<>>
-        /\ aux = [thr |-> 0, retain |-> 0, mleft |-> 0]
+        /\ aux = [thr |-> 0, retain |-> 0, msg |-> 0, mpos |-> 0, base |-> 0, blen |-> 0, off |-> 0, ok |-> TRUE]
 
 H(x) == IF Emit THEN Append(hist, x) ELSE hist
 Out(x) == IF Emit THEN PrintT("BEH " \o ToJson(x)) ELSE TRUE
 
-Avail == Len(wire) - pos
+\* ---- transport: what the next Read hands to the reader ----
+\* pos = number of bytes the reader has received so far.  A stream transport hands over wire[pos+1 ..]; the
+\* message transport hands over what its wrapper holds: unread readBuf bytes first, else the head of the message
+\* this Read has just fetched.
+BufLeft == IF aux.off < aux.blen THEN aux.blen - aux.off ELSE 0          \* unread bytes in readBuf
+Avail == IF Chunking = "msg" THEN BufLeft + (Len(wire) - aux.mpos) ELSE Len(wire) - pos
+From  == IF Chunking = "msg" THEN (IF BufLeft > 0 THEN aux.base + aux.off ELSE aux.mpos) ELSE pos
+In(i) == wire[From + i]                                                  \* i-th byte of the next chunk
 Ns(want) == CASE Chunking = "max" -> {Min(want, Avail)}
-              [] Chunking = "msg" -> IF aux.mleft > 0 THEN {Min(want, aux.mleft)} ELSE {}   \* NextMsg first
+              [] Chunking = "msg" -> IF BufLeft > 0 THEN {Min(want, BufLeft)}
+                                     ELSE IF aux.msg > 0 THEN {Min(want, aux.msg)} ELSE {}   \* NextMsg first
               [] OTHER -> 1..Min(want, Avail)
-\* aux after n bytes were handed over
-AX(n) == IF Chunking = "msg" THEN [aux EXCEPT !.mleft = @ - n] ELSE aux
-\* the message transport takes the peer's next message (m bytes) when the previous one is used up
+\* wrapper deviation that takes effect in a Read handing over n bytes (ghost, for devs)
+WsTaken(n) ==
+  IF Chunking # "msg" \/ BufLeft > 0 \/ n = aux.msg THEN {}
+  ELSE CASE "wsDropRemainder" \in Dev -> {"wsDropRemainder"}
+         [] "wsKeepWhole" \in Dev -> {"wsKeepWhole"}
+         [] "wsStaleOffset" \in Dev /\ aux.off > 0 -> {"wsStaleOffset"}
+         [] OTHER -> {}
+\* an exhausted readBuf is the empty slice again (the stale offset, if that deviation is on, survives)
+Norm(a) == IF a.off < a.blen THEN a
+           ELSE [a EXCEPT !.base = 0, !.blen = 0, !.off = IF "wsStaleOffset" \in Dev THEN a.off ELSE 0]
+\* aux after this Read handed over n bytes: WsBuf (from readBuf) or WsFresh (from the fetched message, rest kept)
+AX(n) ==
+  IF Chunking # "msg" THEN aux
+  ELSE LET okn == aux.ok /\ From = pos IN
+       IF BufLeft > 0 THEN Norm([aux EXCEPT !.off = @ + n, !.ok = okn])
+       ELSE LET m  == aux.msg
+                a1 == [aux EXCEPT !.msg = 0, !.mpos = @ + m, !.ok = okn]
+            IN IF n = m THEN a1
+               ELSE CASE "wsDropRemainder" \in Dev -> a1
+                      [] "wsKeepWhole"     \in Dev -> [a1 EXCEPT !.base = aux.mpos, !.blen = m, !.off = 0]
+                      [] "wsStaleOffset"   \in Dev -> Norm([a1 EXCEPT !.base = aux.mpos + n, !.blen = m - n])
+                      [] OTHER -> [a1 EXCEPT !.base = aux.mpos + n, !.blen = m - n, !.off = 0]
+\* ReadMessage inside a Read that found readBuf empty: the peer's next message (m bytes of the stream)
 NextMsg(m) ==
-  /\ Chunking = "msg" /\ ~open /\ rd.ph \in {"Type", "Len", "Body"} /\ aux.mleft = 0 /\ m \in 1..Avail
-  /\ aux' = [aux EXCEPT !.mleft = m] /\ hist' = H([f |-> "M", n |-> m])
+  /\ Chunking = "msg" /\ ~open /\ rd.ph \in {"Type", "Len", "Body"} /\ BufLeft = 0 /\ aux.msg = 0
+  /\ m \in 1..(Len(wire) - aux.mpos)
+  /\ aux' = [aux EXCEPT !.msg = m] /\ hist' = H([f |-> "M", n |-> m])
   /\ UNCHANGED <<sent, wire, open, pos, rd, decoded, alloc, stalls, devs, outs>>
-\* the next n wire bytes are exactly bytes j0+1..j0+n of field f of frame id
-Expected(n, f, id, j0) == \A i \in 1..n : LET b == wire[pos + i] IN b.f = f /\ b.id = id /\ b.j = j0 + i
+\* the next n bytes handed over are exactly bytes j0+1..j0+n of field f of frame id
+Expected(n, f, id, j0) == \A i \in 1..n : LET b == In(i) IN b.f = f /\ b.id = id /\ b.j = j0 + i
 
 Pk(fr) == [k |-> fr.k, z |-> fr.uz, len |-> fr.len, c |-> fr.c, fl |-> fr.fl]
 
@@ -197,6 +245,7 @@ UpdA(r, p, d, a, dv, o, h, ax) ==
 Upd(r, p, d, a, dv, o, h) == UpdA(r, p, d, a, dv, o, h, aux)
 
 Fail(p, dv, h) == Upd([rd EXCEPT !.ph = "Err"], p, decoded, alloc, dv, Append(outs, "Error"), h)
+FailA(p, dv, h, ax) == UpdA([rd EXCEPT !.ph = "Err"], p, decoded, alloc, dv, Append(outs, "Error"), h, ax)
 EmitRead(exp) == (Mode = "hostile" /\ MaxFrames = 1) => Out([frame |-> sent[1], exp |-> exp])
 \* in hostile mode an error that comes after the packet has been consumed completely (encrypted flag, gunzip,
 \* JSON) is an outcome of THAT call: the stream is still aligned and a caller that reads on must be served
@@ -209,19 +258,20 @@ Deliver(id, p, a, h) ==
 
 \* readPacketType: one Read of a 1-byte buffer
 ReadType ==
-  /\ ~open /\ rd.ph = "Type" /\ Avail > 0 /\ (Chunking = "msg" => aux.mleft > 0)
+  /\ ~open /\ rd.ph = "Type" /\ Avail > 0 /\ (Chunking = "msg" => BufLeft > 0 \/ aux.msg > 0)
   /\ \E t \in (IF Mode = "hostile" THEN Threads ELSE {0}) :      \* the call is made by reader thread t
-     LET b  == wire[pos + 1]
+     LET b  == In(1)
          h  == IF Mode = "hostile" THEN H([thr |-> t]) ELSE H([f |-> "T", n |-> 1])
-         ax == [AX(1) EXCEPT !.thr = t] IN
+         ax == [AX(1) EXCEPT !.thr = t]
+         dv == devs \cup WsTaken(1) IN
      IF b.f # "T"
-     THEN Fail(pos + 1, devs, h)                       \* misaligned: a body/length byte read as a type
+     THEN FailA(pos + 1, dv, h, ax)                    \* misaligned: a body/length byte read as a type
      ELSE IF sent[b.id].k = "HB"
      THEN /\ UpdA(IF Mode = "hostile" THEN [Idle EXCEPT !.ph = "Dispatch", !.id = b.id] ELSE Idle, pos + 1,
-                  Append(decoded, [id |-> b.id, n |-> 1, rej |-> FALSE]), 0, devs, Append(outs, "Packet"), h, ax)
+                  Append(decoded, [id |-> b.id, n |-> 1, rej |-> FALSE]), 0, dv, Append(outs, "Packet"), h, ax)
           /\ EmitRead("Packet")
      ELSE UpdA([ph |-> "Len", id |-> b.id, got |-> 0, need |-> 4, bad |-> FALSE, start |-> pos],
-               pos + 1, decoded, 0, devs, outs, h, ax)
+               pos + 1, decoded, 0, dv, outs, h, ax)
 
 \* end of stream exactly on a packet boundary: io.EOF, the read loop ends
 ReadEof ==
@@ -231,47 +281,55 @@ ReadEof ==
   /\ ((Mode = "hostile" /\ MaxFrames > 1) => Out([frames |-> sent, calls |-> hist]))
 
 \* after the length field is complete: readPacketBody's limit check and pool allocation
-AfterLen(p, bad, h, ax) ==
+AfterLen(p, bad, h, ax, dv) ==
   LET fr == sent[rd.id] IN
-  IF bad THEN Fail(p, devs, h)                                  \* garbage length (over-approximated: error)
-  ELSE IF fr.sc \in {"OVER", "U32"} THEN Fail(p, devs, h) /\ EmitRead("Error")   \* rejected before any allocation
+  IF bad THEN FailA(p, dv, h, ax)                               \* garbage length (over-approximated: error)
+  ELSE IF fr.sc \in {"OVER", "U32"} THEN Fail(p, dv, h) /\ EmitRead("Error")   \* rejected before any allocation
   ELSE IF fr.nb = 0
-  THEN UpdA([rd EXCEPT !.ph = "Post", !.got = 0, !.need = 0], p, decoded, alloc, devs, outs, h, ax)
-  ELSE UpdA([rd EXCEPT !.ph = "Body", !.got = 0, !.need = fr.nb], p, decoded, alloc + U(fr.sc), devs, outs, h, ax)
+  THEN UpdA([rd EXCEPT !.ph = "Post", !.got = 0, !.need = 0], p, decoded, alloc, dv, outs, h, ax)
+  ELSE UpdA([rd EXCEPT !.ph = "Body", !.got = 0, !.need = fr.nb], p, decoded, alloc + U(fr.sc), dv, outs, h, ax)
 
 \* readPacketBodySize
 ReadLen(n) ==
   /\ ~open /\ rd.ph = "Len" /\ Avail > 0 /\ n \in Ns(4 - rd.got)
   /\ LET bad == rd.bad \/ ~Expected(n, "L", rd.id, rd.got)
-         h   == H([f |-> "L", n |-> n]) IN
-     IF rd.got + n = 4 THEN AfterLen(pos + n, bad, h, AX(n))
+         h   == H([f |-> "L", n |-> n])
+         dv  == devs \cup WsTaken(n) IN
+     IF rd.got + n = 4 THEN AfterLen(pos + n, bad, h, AX(n), dv)
      ELSE IF "shortHeader" \in Dev
-     THEN Fail(pos + n, devs \cup {"shortHeader"}, h) /\ EmitRead("Error")   \* single Read: short => ErrUnexpectedEOF
-     ELSE UpdA([rd EXCEPT !.got = rd.got + n, !.bad = bad], pos + n, decoded, alloc, devs, outs, h, AX(n))
+     THEN Fail(pos + n, dv \cup {"shortHeader"}, h) /\ EmitRead("Error")     \* single Read: short => ErrUnexpectedEOF
+     ELSE UpdA([rd EXCEPT !.got = rd.got + n, !.bad = bad], pos + n, decoded, alloc, dv, outs, h, AX(n))
 
 \* readPacketBody: loops until the declared length is there
 ReadBody(n) ==
   /\ ~open /\ rd.ph = "Body" /\ Avail > 0 /\ n \in Ns(rd.need - rd.got)
   /\ LET bad == rd.bad \/ ~Expected(n, "B", rd.id, rd.got)
-         h   == H([f |-> "B", n |-> n]) IN
+         h   == H([f |-> "B", n |-> n])
+         dv  == devs \cup WsTaken(n) IN
      IF rd.got + n = rd.need
      THEN UpdA([rd EXCEPT !.ph = "Post", !.got = rd.need, !.bad = bad], pos + n, decoded,
-               alloc + U(sent[rd.id].sc), devs, outs, h, AX(n))                     \* copy out of the pool buffer
-     ELSE UpdA([rd EXCEPT !.got = rd.got + n, !.bad = bad], pos + n, decoded, alloc, devs, outs, h, AX(n))
+               alloc + U(sent[rd.id].sc), dv, outs, h, AX(n))                       \* copy out of the pool buffer
+     ELSE UpdA([rd EXCEPT !.got = rd.got + n, !.bad = bad], pos + n, decoded, alloc, dv, outs, h, AX(n))
 
 \* the stream ends inside a packet
 ReadTrunc ==
   /\ ~open /\ rd.ph \in {"Len", "Body"} /\ Avail = 0
   /\ Fail(pos, devs, hist) /\ EmitRead("Error")
 
-\* a Read that returns (0, nil)
+\* a Read that returns (0, nil); on the message transport: ReadMessage delivered an EMPTY message (only a Read
+\* that found readBuf empty gets there)
 Stall ==
   /\ ~open /\ rd.ph \in {"Type", "Len", "Body"} /\ Avail > 0 /\ stalls < MaxStall
+  /\ (Chunking = "msg" => BufLeft = 0 /\ aux.msg = 0)
   /\ stalls' = stalls + 1
-  /\ LET h == H([f |-> (CASE rd.ph = "Type" -> "T" [] rd.ph = "Len" -> "L" [] OTHER -> "B"), n |-> 0]) IN
+  /\ LET h == IF Chunking = "msg" THEN H([f |-> "M", n |-> 0])
+              ELSE H([f |-> (CASE rd.ph = "Type" -> "T" [] rd.ph = "Len" -> "L" [] OTHER -> "B"), n |-> 0]) IN
      IF rd.ph \in {"Type", "Len"} /\ "shortHeader" \in Dev
      THEN /\ rd' = [rd EXCEPT !.ph = "Err"] /\ devs' = devs \cup {"shortHeader"}
           /\ outs' = Append(outs, "Error") /\ hist' = h /\ EmitRead("Error")
+     ELSE IF Chunking = "msg" /\ "wsEmptyIsEof" \in Dev
+     THEN /\ rd' = [rd EXCEPT !.ph = "Err"] /\ devs' = devs \cup {"wsEmptyIsEof"}     \* io.EOF in the middle of the stream
+          /\ outs' = Append(outs, "Error") /\ hist' = h
      ELSE /\ hist' = h /\ UNCHANGED <<rd, devs, outs>>
   /\ UNCHANGED <<sent, wire, open, pos, decoded, alloc, aux>>
 
@@ -335,11 +393,19 @@ Terminal == rd.ph \in {"Eof", "Err"}
 \* so that no number of refused packets can make the server retain memory
 \* a message transport hands every byte of every message to the reader, once and in order: nothing is left in
 \* the wrapper at the end of the stream, and what it still holds is exactly the part of the stream not yet read
-MsgDrained == (Chunking = "msg" /\ rd.ph = "Eof") => aux.mleft = 0
+MsgDrained == (Chunking = "msg" /\ rd.ph = "Eof") => (BufLeft = 0 /\ aux.msg = 0 /\ aux.mpos = Len(wire))
+\* ... the wrapper is transparent: every chunk it handed over continued the stream exactly where the reader was ...
+WsTransparent == aux.ok
+\* ... and conserves bytes: received + unread in readBuf = taken off the socket; readBuf is the very next part
+WsConserves == (Chunking = "msg" /\ rd.ph # "Err") =>
+                 /\ pos + BufLeft = aux.mpos
+                 /\ BufLeft > 0 => aux.base + aux.off = pos
+                 /\ aux.msg <= Len(wire) - aux.mpos
+WsOK == MsgDrained /\ WsTransparent /\ WsConserves
 RetainBound == aux.retain <= 1 /\ (rd.ph \notin {"Handling"} => aux.retain = 0)
 OK(P) == P \/ devs # {}            \* one flagged deviation must not mask the other routes: checked per cfg
 
-TypeOK == /\ pos \in 0..Len(wire) /\ alloc \in Nat /\ devs \subseteq Dev
+TypeOK == /\ pos \in Nat /\ (Dev \cap WsDevs = {} => pos <= Len(wire)) /\ alloc \in Nat /\ devs \subseteq Dev
           /\ \A i \in 1..Len(outs) : outs[i] \in {"Packet", "Error", "Reply", "Eof", "Rejected"}
 
 \* C01 - what was read is what was written, in order ...
@@ -349,7 +415,7 @@ Prefix == Mode = "honest" =>
 \* ... consuming exactly the bytes of each packet, so that the next one stays aligned ...
 Aligned == Mode = "honest" =>
              /\ \A i \in 1..Len(decoded) : decoded[i].id = i => decoded[i].n = EncSize(sent[i])
-             /\ (rd.ph = "Type" /\ Avail > 0) => wire[pos + 1].f = "T"
+             /\ (rd.ph = "Type" /\ Avail > 0) => wire[From + 1].f = "T"     \* the next byte handed over starts a packet
 \* ... for every chunking: no error before the end, and at the end everything has been read
 NoError  == Mode = "honest" => rd.ph # "Err"
 Complete == (Mode = "honest" /\ rd.ph = "Eof") => (Len(decoded) = Len(sent) /\ pos = Len(wire))
